@@ -803,3 +803,7 @@ Proof. intros. apply fold_left_concat. Qed.
 Theorem batches_lossless_rows : forall chunks l,
   put_batches chunks l = fold_left put_node (concat chunks) l.
 Proof. intros. apply fold_left_concat. Qed.
+
+(* ... in particular an empty last batch (the number of rows is an exact multiple of the batch size) changes nothing *)
+Theorem batches_empty_tail : forall (chunks : list (list nrow)) l, put_batches (chunks ++ [[]]) l = put_batches chunks l.
+Proof. intros. rewrite !batches_lossless_rows, concat_app. cbn [concat]. rewrite !app_nil_r. reflexivity. Qed.
